@@ -139,12 +139,16 @@ def check_separation(norm=8):
     return bad
 
 
-def observe(sec, verbose=False):
+def observe(sec, verbose=False, own_prefix=None):
+    """own_prefix: the sector's full-code prefix ('C1_S__') that main() puts in front of the sector's own names; the
+    registered route (execute_registered) observes after main() and reads the ledgers in the sector's local names"""
     out = {}
     for key, name in (('F', 'F'), ('INC', 'INC')):
         okk = 'okF' if key == 'F' else 'okI'
         try:
             text = sec.EquationBlock[name].RHS()
+            if own_prefix:
+                text = text.replace(own_prefix, '')
             ok, vals = evaluate(text, SCALE)
         except Exception as e:
             text, ok, vals = 'EXC ' + type(e).__name__, False, [0, 0]
@@ -158,6 +162,8 @@ def observe(sec, verbose=False):
                 defs[n] = {'k': 'absent', 'd': '', 'v': [0, 0], 'e': True}
                 continue
             rhs = sec.EquationBlock[n].RHS()
+            if own_prefix:
+                rhs = rhs.replace(own_prefix, '').replace(' ', '')    # main() re-tokenises the definition
             if rhs == '':
                 defs[n] = {'k': 'empty', 'd': '', 'v': [0, 0], 'e': True}
             elif rhs == '0.0':
@@ -213,6 +219,91 @@ def execute(beh, verbose=False):
         ev.update(observe(sec, verbose))
         events.append(ev)
     return events
+
+
+_REGISTERED_SEEN = set()
+
+
+def registrable(beh):
+    """histories that can also be stated through the model: the flow variable is declared first (with a definition),
+    every later call pays that variable out of the sector"""
+    if len(beh) < 2 or beh[0]['op'] != 'AV' or beh[0]['eqn'] in ('', '0'):
+        return False
+    return all(a['op'] == 'CF' and a['s1'] == '-' and not a['br'] and not a['he'] and a['body'] == beh[0]['body']
+               for a in beh[1:])
+
+
+def execute_registered(beh, verbose=False):
+    """The same history stated through Model.RegisterCashFlow (source = the sector, target = sector O) and booked by
+    main(): one fresh model per prefix, the sector's ledgers read after main() in its local names.  Two equal
+    registrations are two flows (C06: repeated flows accumulate)."""
+    from sfc_models.models import Model, Country
+    from sfc_models.sector import Sector
+    import warnings
+    events = []
+    for n in range(1, len(beh) + 1):
+        mod = Model()
+        country = Country(mod, 'C1', 'Country C1')
+        sec = Sector(country, 'S', 'Sector S')
+        other = Sector(country, 'O', 'Sector O')
+        ev = {'ev': 'Do', 'a': beh[n - 1], 'ok': True}
+        for a in beh[:n]:
+            if a['op'] == 'AV':
+                sec.AddVariable(a['body'], '', a['eqn'])
+            else:
+                mod.RegisterCashFlow(sec, other, a['body'], is_income_source=a['inc'], is_income_dest=a['inc'])
+        mod.MaxTime = 2
+        try:
+            with warnings.catch_warnings():
+                warnings.simplefilter('ignore')
+                mod.main()
+        except Exception as e:      # the definitions name variables nobody declares: the solver refuses, the ledgers exist
+            if verbose:
+                ev['main'] = '%s: %s' % (type(e).__name__, e)
+        if n == 1:
+            # nothing is registered yet: the state after AddVariable is the one the direct route observes
+            mod2 = Model()
+            sec2 = Sector(Country(mod2, 'C1', 'Country C1'), 'S', 'Sector S')
+            sec2.AddVariable(beh[0]['body'], '', beh[0]['eqn'])
+            ev.update(observe(sec2, verbose))
+        else:
+            ev.update(observe(sec, verbose, own_prefix=sec.GetVariableName('F')[:-1]))
+        events.append(ev)
+    return events
+
+
+def judge_registered(rep, behs):
+    part, seen = [], _REGISTERED_SEEN
+    for b in behs:
+        for n in range(len(b), 1, -1):       # the longest prefix that can be stated through the model
+            if registrable(b[:n]):
+                k = '|'.join(show(a) for a in b[:n])
+                if k not in seen:
+                    seen.add(k)
+                    part.append(b[:n])
+                break
+    if not part:
+        return
+    traces = [(i, execute_registered(b)) for i, b in enumerate(part)]
+    verdicts, st, tr = core.validate_traces('MC_Sector_Trace', 'MC_Sector_Trace.cfg', traces, tag='c06r')
+    rep.traces += len(part)
+    rep.extra['registered_route_histories'] = rep.extra.get('registered_route_histories', 0) + len(part)
+    rep.extra['trace_validation_states'] = rep.extra.get('trace_validation_states', 0) + st
+    for i, b in enumerate(part):
+        v = verdicts[i]
+        if v == 'ok:':
+            continue
+        kind, clause = v.split(':', 1)
+        clause, _, at = clause.partition('@')
+        obs = execute_registered(b, verbose=True)
+        case = {'behaviour': b, 'route': 'registered', 'spelled': ['Model.RegisterCashFlow route: ' + show(a) for a in b],
+                'observed': obs}
+        if kind == 'property':
+            rep.violate(clause, clause + ':registered:' + str(len(b)), case,
+                        detail='history stated through Model.RegisterCashFlow + main(): %s; observed %s' % (
+                            '; '.join(show(a) for a in b), json.dumps(brief(obs))[:600]))
+        else:
+            rep.add_drift(clause, case)
 
 
 def spelling(a):
@@ -390,6 +481,7 @@ def run(rep):
         if not behs and not seen:
             raise core.MachineryError('TLC emitted no behaviours for ' + cfg)
         judge(rep, behs)
+        judge_registered(rep, behs)
 
 
 def replay(path):
@@ -397,8 +489,12 @@ def replay(path):
         data = json.load(f)
     beh = data['case']['behaviour']
     rep = core.Report('C06', 'quick', 0)
-    judge(rep, [beh])
-    print(json.dumps({'history': [show(a) for a in beh], 'observed_now': execute(beh, verbose=True)}, indent=1))
+    if data['case'].get('route') == 'registered':
+        judge_registered(rep, [beh])
+        print(json.dumps({'history': [show(a) for a in beh], 'observed_now': execute_registered(beh, verbose=True)}, indent=1))
+    else:
+        judge(rep, [beh])
+        print(json.dumps({'history': [show(a) for a in beh], 'observed_now': execute(beh, verbose=True)}, indent=1))
     for v in rep.violations:
         print('VIOLATION property=C06 replay=%s' % path)
         print('  clause=%s signature=%s' % (v.clause, v.signature))
